@@ -1,6 +1,37 @@
 """Native replay against the real code: scenario families (counterexample search
-for a failed obligation) and confirmation of known findings."""
-import json, os, subprocess
+for a failed obligation) and confirmation of known findings.  A family runs real
+functions of the repository under test (VERIF_REPO) - never a model of them."""
+import json, os, subprocess, shutil
+
+
+def _rustc_family(name, repo, verif, build, subst, timeout=300):
+    src = open(os.path.join(verif, "replay", name, "main.rs")).read()
+    for k, v in subst.items():
+        src = src.replace(k, v)
+    d = os.path.join(build, "replay-" + name)
+    os.makedirs(d, exist_ok=True)
+    open(os.path.join(d, "main.rs"), "w").write(src)
+    exe = os.path.join(d, "family")
+    p = subprocess.run(["rustc", "--edition", "2021", "-O", "-o", exe, os.path.join(d, "main.rs")],
+                       capture_output=True, text=True, timeout=timeout)
+    if p.returncode != 0:
+        return dict(counterexample=None, counterexample_search="family %s did not compile against the tree under test: %s" % (name, p.stderr[-600:]))
+    r = subprocess.run([exe], capture_output=True, text=True, timeout=timeout)
+    last = [l for l in r.stdout.splitlines() if l.startswith("{")]
+    if not last:
+        return dict(counterexample=None, counterexample_search="family %s produced no verdict (rc=%d): %s" % (name, r.returncode, (r.stdout + r.stderr)[-600:]))
+    v = json.loads(last[-1])
+    if v.get("found"):
+        return dict(counterexample=v, counterexample_search="scenario family replay/%s run natively against the real functions" % name)
+    return dict(counterexample=None, counterexample_search="scenario family replay/%s: %s cases, none disagreed" % (name, v.get("tried")))
+
+
+def family_c25(prop, fail, unit_res, repo, verif, build):
+    return _rustc_family("c25", repo, verif, build,
+                         {"@TYPES@": os.path.join(repo, "distributed-walrus/src/controller/types.rs")})
+
+
+FAMILIES = {"C25": family_c25}
 
 
 def run_native_unit(unit, tier, seed, repo, verif, build, prop):
@@ -10,4 +41,7 @@ def run_native_unit(unit, tier, seed, repo, verif, build, prop):
 def search_counterexample(prop, fail, unit_res, repo, verif, build):
     """Try the scenario family registered for this property; returns a dict that is
     merged into the replay file. No family / nothing found -> counterexample None."""
-    return dict(counterexample=None, counterexample_search="no scenario family registered for this obligation")
+    fam = FAMILIES.get(prop)
+    if not fam:
+        return dict(counterexample=None, counterexample_search="no scenario family registered for this property")
+    return fam(prop, fail, unit_res, repo, verif, build)
